@@ -154,6 +154,18 @@ def check_model(case, stats):
     stats.notes["locations_checked"] = stats.notes.get("locations_checked", 0) + nloc
     if a != b:
         raise Violation(case, "locations differ from where the renderer put the elements, %s\n--- text:\n%s" % (diff_text(a, b, "parser", "rendered at"), r.text))
+    # a TokenScanner object from which the caller has already read k leading blank lines: locations still name physical lines
+    k = 1 + len(r.text) % 3
+    shifted = "\n" * k + r.text
+    if not gh.names_existing_path(shifted):
+        whole = gh.parse(shifted, doc["default"])
+        sc = gh.TokenScanner(shifted)
+        for _ in range(k):
+            sc.read()
+        part = gh.parse(sc, doc["default"])
+        if whole[0] == "ok" and (part[0] != "ok" or loc_projection(part[1]) != loc_projection(whole[1])):
+            raise Violation(case, "after the caller read %d blank lines from the TokenScanner itself, locations are no longer physical lines: %s" % (
+                k, diff_text(loc_projection(part[1]), loc_projection(whole[1]), "pre-read scanner", "whole text") if part[0] == "ok" else part[1][:2]))
 
 
 def check_text(case, stats):
